@@ -142,8 +142,11 @@ if job.get('providers') is not None:
     for iface, obj in job['providers']:
         injection._providers[dec(iface)] = (lambda o: (lambda: o))(dec(obj))
 out = {}
+import io, contextlib
+_buf = io.StringIO()
 try:
-    res = fn(*args)
+    with contextlib.redirect_stdout(_buf):
+        res = fn(*args)
     out['result'] = enc(res)
     out['raised'] = None
 except BaseException as e:
@@ -152,6 +155,7 @@ except BaseException as e:
     out['result'] = None
 ids.clear()
 out['args_after'] = [enc(a) for a in args]
+out['stdout'] = _buf.getvalue()
 out['dev'] = [enc(e) for e in DEV]
 out['clk'] = [enc(e) for e in CLK]
 json.dump(out, open(sys.argv[3], 'w'))
@@ -390,7 +394,7 @@ def native_replay(pid, contract, ob, repo):
             return info
         out = json.load(open(op))
     info['observed'] = {'raised': out.get('raised'), 'message': out.get('message'), 'result': out.get('result'),
-                        'device_requests': out.get('dev'), 'clock_requests': out.get('clk')}
+                        'device_requests': out.get('dev'), 'clock_requests': out.get('clk'), 'stdout': out.get('stdout')}
     kind = ob.get('kind')
     if kind == 'noexc':
         info['reproduced'] = out.get('raised') is not None
@@ -426,6 +430,7 @@ def native_replay(pid, contract, ob, repo):
         env_vars['result'] = result
         I.ghost['Dev'] = PyList([decode(I, e, memo) for e in out.get('dev', [])])
         I.ghost['Clk'] = PyList([decode(I, e, memo) for e in out.get('clk', [])])
+        I.ghost['OutText'] = out.get('stdout', '')
         penv = Env(env_vars, None, fn.module.ns, None)
         for dname, dtext in contract.defines_:
             penv.vars[dname] = I.eval_spec_value(dtext, penv)
